@@ -1046,6 +1046,8 @@ MUTANTS = [
     Mutant("regex-bulk-path-misses-a-trailing-iac", T, '    def dataReceived(self, data):\n        appDataBuffer = []\n\n        for b in iterbytes(data):\n            if self.state == "data":',
            '    def dataReceived(self, data):\n        if self.state == "data" and _commandStart.search(data) is None:\n            if data:\n                self.applicationDataReceived(data.replace(IAC * 2, IAC))\n            return\n        appDataBuffer = []\n\n        for b in iterbytes(data):\n            if self.state == "data":', expect_rule="reader/round-trip",
            more=[(T, 'import struct\n', 'import re\nimport struct\n'), (T, 'class Telnet(protocol.Protocol):\n', '_commandStart = re.compile(rb"\\xff[^\\xff]|\\r")\n\n\nclass Telnet(protocol.Protocol):\n')]),
+    Mutant("state-read-once-per-chunk-into-a-local", T, '        for b in iterbytes(data):\n            if self.state == "data":\n                if b == IAC:',
+           '        current = self.state\n        for b in iterbytes(data):\n            if current == "data":\n                if b == IAC:', expect_rule="reader/"),
 ]
 SILENT = [
     Silent("flush-moved-into-private-helper", T, "                command = self.command\n                del self.command\n                if appDataBuffer:\n                    self.applicationDataReceived(b\"\".join(appDataBuffer))\n                    del appDataBuffer[:]\n                self.commandReceived(command, b)\n",
@@ -1075,4 +1077,6 @@ SILENT = [
     Silent("regex-bulk-path-for-chunks-of-whole-pairs", T, '    def dataReceived(self, data):\n        appDataBuffer = []\n\n        for b in iterbytes(data):\n            if self.state == "data":',
            '    def dataReceived(self, data):\n        if self.state == "data" and _plainChunk.match(data):\n            if data:\n                self.applicationDataReceived(data.replace(IAC * 2, IAC))\n            return\n        appDataBuffer = []\n\n        for b in iterbytes(data):\n            if self.state == "data":',
            more=[(T, 'import struct\n', 'import re\nimport struct\n'), (T, 'class Telnet(protocol.Protocol):\n', '_plainChunk = re.compile(rb"(?:[^\\xff\\r]|\\xff\\xff)*\\Z")\n\n\nclass Telnet(protocol.Protocol):\n')]),
+    Silent("state-read-once-per-byte-into-a-local", T, '        for b in iterbytes(data):\n            if self.state == "data":\n                if b == IAC:',
+           '        for b in iterbytes(data):\n            current = self.state\n            if current == "data":\n                if b == IAC:'),
 ]
